@@ -113,4 +113,17 @@ META = {
   "note": "yaml.v3 marshalling and Viper reading are trusted; strings with placeholder delimiters excluded (C16 semantics).",
   "technique": "property-based round-trip and differential testing (rapid) over run-time built struct types",
  },
+
+ "C18": {
+  "text": "Expressions are generated from a grammar over literals and placeholders fed by a drawn configuration; the oracle substitutes placeholders with the reference and evaluates the resulting text directly with the expression library, the field typed after the result must hold exactly that. Validation: generated value x constraint lists at and around the limits on int and string fields (from literals or configuration) and structs bound by prefix; an independent reimplementation of the constraints (self-checked against the validator library on every case) decides fail / no fail as a biconditional, including the absence of the validate argument.",
+  "design_ref": "DESIGN.md section 4, C18",
+  "note": "expr-lang/expr and go-playground/validator are trusted third parties.",
+  "technique": "property-based differential testing (rapid): direct library evaluation vs. container result; biconditional validation oracle",
+ },
+ "C20": {
+  "text": "Race part: generated applications with user definition scanners rejecting several components at once and failing closers are started and shut down in a -race build under GOMAXPROCS 2/4/16; the oracle is the race detector. Atomicity part: histories of the concurrent map and set utilities are recorded and checked for linearizability with porcupine, once with the harness owning the schedule through the LoadOrStoreFn callback (caller 1 parked while caller 2 runs complete operations) and once with 3-6 free-running goroutines.",
+  "design_ref": "DESIGN.md section 4, C20",
+  "note": "Interleavings are sampled except for the owned LoadOrStoreFn yield point; the race detector only sees executed accesses.",
+  "technique": "generated scenarios under the Go race detector + linearizability checking (porcupine) of recorded histories, one owned schedule",
+ },
 }
